@@ -12,7 +12,7 @@ import (
 	"google.golang.org/protobuf/proto"
 	"google.golang.org/protobuf/types/known/anypb"
 
-	"github.com/obolnetwork/charon/app/k1util"
+	"github.com/obolnetwork/charon/dkg/bcast"
 	pb "github.com/obolnetwork/charon/dkg/dkgpb/v1"
 	"github.com/obolnetwork/charon/p2p"
 
@@ -41,29 +41,45 @@ type fullMsg struct {
 	tag           string
 }
 
-type poolSig struct {
-	world int
-	h     hash32
-	sig   []byte
+// poolKey says what a signature in the faulty member's pool was given for: member `member`
+// answered `requester`'s request under id carrying exactly payload ak in session world.
+type poolKey struct {
+	world, member, requester int
+	id                       string
+	ak                       anyKey
 }
 
-// adversary is the faulty cluster member. Its playbook runs on the case goroutine; its protocol
-// handlers (serving honest members) run on delivery goroutines, hence the lock.
+type poolEntry struct {
+	k   poolKey
+	sig []byte
+}
+
+// signOracle is a real bcast.Component holding the faulty member's key on a private network: the
+// only place where the faulty member's signatures are made (production hashing and signing).
+type signOracle struct {
+	net  *fakenet.Net
+	comp *bcast.Component
+}
+
+// adversary is the faulty cluster member. Its playbook runs on the case goroutine (some plays fan
+// out into goroutines); its protocol handlers (serving honest members) run on delivery goroutines,
+// hence the lock.
 type adversary struct {
-	c    *kit.Case
-	rng  *rand.Rand
-	mon  *monitor
-	salt uint64
-	me   int
+	c     *kit.Case
+	rng   *rand.Rand
+	mon   *monitor
+	salt  uint64
+	me    int
+	peers []peer.ID
 
 	mu        sync.Mutex
-	sigs      map[signedKey][]byte // valid signatures known to the faulty member
-	byMember  map[int][]poolSig
+	sigs      map[poolKey][]byte // signatures known to the faulty member
+	byMember  map[int][]poolEntry
 	full      []fullMsg // foreign (honest) fully signed messages addressed to the faulty member
 	own       []fullMsg // own messages with a complete valid list
 	okSent    []sentMsg // /msg injections that were accepted
-	ownSig    map[hash32][]byte
-	signedFor map[string]map[hash32]bool
+	oracles   map[int]*signOracle
+	signedFor map[string]map[anyKey]bool
 	used      map[string]bool // session|id for which some member already signed for the faulty member
 	trace     []step
 	counts    map[string]int64
@@ -71,7 +87,6 @@ type adversary struct {
 	rejected  int64
 	noHandler atomic.Bool
 	pcount    int
-	shape     atomic.Uint32 // packed hashShape the members were found to sign
 }
 
 type sentMsg struct {
@@ -79,15 +94,12 @@ type sentMsg struct {
 	m         fullMsg
 }
 
-func newAdversary(c *kit.Case, mon *monitor, salt uint64) *adversary {
-	a := &adversary{
-		c: c, rng: c.Rng, mon: mon, salt: salt, me: mon.adv,
-		sigs: map[signedKey][]byte{}, byMember: map[int][]poolSig{}, ownSig: map[hash32][]byte{},
-		signedFor: map[string]map[hash32]bool{}, used: map[string]bool{}, counts: map[string]int64{},
+func newAdversary(c *kit.Case, mon *monitor, salt uint64, peers []peer.ID) *adversary {
+	return &adversary{
+		c: c, rng: c.Rng, mon: mon, salt: salt, me: mon.adv, peers: peers,
+		sigs: map[poolKey][]byte{}, byMember: map[int][]poolEntry{}, oracles: map[int]*signOracle{},
+		signedFor: map[string]map[anyKey]bool{}, used: map[string]bool{}, counts: map[string]int64{},
 	}
-	a.shape.Store(plainSpec.pack())
-
-	return a
 }
 
 func (a *adversary) count(k string, d int64) {
@@ -118,89 +130,88 @@ func (a *adversary) addTrace(s step) {
 	a.mu.Unlock()
 }
 
-// sign signs h with the faulty member's key (a member producing a signature, so it is recorded).
-func (a *adversary) sign(h hash32, requester int) []byte {
+func (a *adversary) newOracle(w *world) *signOracle {
+	o := &signOracle{net: fakenet.New()}
+	o.comp = bcast.New(o.net.Host(a.peers[a.me]), a.peers, a.mon.members[a.me].key, w.session)
+
+	return o
+}
+
+// signVia returns the faulty member's signature over (id, any) for a broadcast by `requester` in
+// session w, produced by a real bcast.Component with the faulty member's key: the request goes
+// through its real /sig handler (production hash, dedup and signer). The faulty member wants to be
+// able to sign anything, so every id is registered on demand with a check that accepts all, and a
+// fresh component replaces one whose own dedup refuses. Recorded as "the faulty member signed".
+func (a *adversary) signVia(w *world, requester int, id string, any *anypb.Any) []byte {
+	if any == nil {
+		return nil
+	}
+	k := poolKey{w.idx, a.me, requester, id, keyOfAny(any)}
 	a.mu.Lock()
-	sig := a.ownSig[h]
+	sig := a.sigs[k]
 	a.mu.Unlock()
 	if sig == nil {
-		var err error
-		sig, err = k1util.Sign(a.mon.members[a.me].key, h[:])
-		if err != nil {
-			panic(err)
+		for try := 0; try < 2 && sig == nil; try++ {
+			a.mu.Lock()
+			o := a.oracles[w.idx]
+			if o == nil {
+				o = a.newOracle(w)
+				a.oracles[w.idx] = o
+				a.counts["adv_sign_oracle_instances"]++
+			}
+			a.mu.Unlock()
+			o.comp.RegisterMessageIDFuncs(id,
+				func(context.Context, peer.ID, string, proto.Message) error { return nil },
+				func(context.Context, peer.ID, *anypb.Any) error { return nil })
+			raw, _ := o.net.Inject(a.peers[requester], a.peers[a.me], protoSig, &pb.BCastSigRequest{Id: id, Message: any})
+			resp := new(pb.BCastSigResponse)
+			if len(raw) > 0 && fakenet.Unframe(raw, resp) == nil && len(resp.GetSignature()) == 65 {
+				sig = resp.GetSignature()
+				break
+			}
+			a.mu.Lock()
+			if a.oracles[w.idx] == o {
+				delete(a.oracles, w.idx) // its dedup holds another payload for (requester, id)
+			}
+			a.mu.Unlock()
 		}
-		a.mu.Lock()
-		a.ownSig[h] = sig
-		a.mu.Unlock()
+		if sig == nil {
+			a.count("adv_sign_oracle_gave_no_signature", 1)
+			return nil
+		}
+		a.learn(k, sig)
 	}
-	if a.conformant() {
-		a.mon.recordSig(a.me, requester, h)
-	}
+	a.mon.recordAnswer(w, a.me, requester, id, any)
 
 	return sig
 }
 
-// The faulty member signs what the other members actually sign (it probes them), so that a
-// deviation of the implementation's hash from the specified one does not merely break every
-// broadcast: the monitor keeps using the specified hash.
-
-func (a *adversary) getShape() hashShape { return unpackShape(a.shape.Load()) }
-
-// conformant: the members sign a hash shape the property accepts.
-func (a *adversary) conformant() bool { return a.shape.Load() == a.mon.spec.Load() }
-
-// wireHash is the hash the cluster members sign on the wire for a broadcast by `sender`, as far as
-// the faulty member found out.
-func (a *adversary) wireHash(w *world, id string, sender int, any *anypb.Any) hash32 {
-	return shapedHash(a.getShape(), w.session, id, a.mon.members[sender].id, any)
-}
-
-// detectShape finds the hash shape under which sig is member `to`'s signature for (id, any)
-// requested by the faulty member.
-func (a *adversary) detectShape(w *world, to int, id string, any *anypb.Any, sig []byte) bool {
-	try := func(sh hashShape) bool {
-		if !a.mon.verify(to, shapedHash(sh, w.session, id, a.mon.members[a.me].id, any), sig) {
-			return false
-		}
-		a.shape.Store(sh.pack())
-		if sh == senderSpec || sh == plainSpec {
-			a.mon.spec.Store(sh.pack())
-		}
-		a.count("members_sign_hash_shape/"+sh.String(), 1)
-
-		return true
-	}
-	if try(plainSpec) || try(senderSpec) {
-		return true
-	}
-	for _, prefixed := range []bool{true, false} {
-		for mask := uint8(31); mask >= 1; mask-- {
-			if try(hashShape{mask: mask, prefixed: prefixed}) {
-				return true
-			}
-		}
-	}
-
-	return false
-}
-
-// probe asks one member per session for a signature under a dedicated id before anything else
-// happens, to learn the hash shape.
-func (a *adversary) probe() {
-	for _, w := range a.mon.worlds {
-		p := a.newPayload("ts")
-		a.sigReq(w, a.honest()[0], idProbe, p.encs[0], p.Tag, "probe-hash-shape")
-	}
-}
-
-func (a *adversary) learn(w int, signer int, h hash32, sig []byte) {
+func (a *adversary) learn(k poolKey, sig []byte) {
 	a.mu.Lock()
-	k := signedKey{signer, h}
 	if _, ok := a.sigs[k]; !ok {
 		a.sigs[k] = sig
-		a.byMember[signer] = append(a.byMember[signer], poolSig{world: w, h: h, sig: sig})
+		a.byMember[k.member] = append(a.byMember[k.member], poolEntry{k: k, sig: sig})
 	}
 	a.mu.Unlock()
+}
+
+func (a *adversary) known(k poolKey) []byte {
+	a.mu.Lock()
+	defer a.mu.Unlock()
+
+	return a.sigs[k]
+}
+
+// tagOf finds the witness tag of a payload on the wire.
+func (a *adversary) tagOf(any *anypb.Any) string {
+	dk := decodedKey(any)
+	a.mon.mu.Lock()
+	defer a.mon.mu.Unlock()
+	if p := a.mon.payloads[dk]; p != nil {
+		return p.Tag
+	}
+
+	return "?"
 }
 
 // registerHandlers makes the faulty member a protocol participant for honest broadcasters: it
@@ -214,7 +225,6 @@ func (a *adversary) registerHandlers(w *world, host *fakenet.Host) {
 			if !ok || !known {
 				return nil, false, nil
 			}
-			h := a.wireHash(w, req.GetId(), from, req.GetMessage())
 			switch x := mix(a.salt, 77, uint64(w.idx), uint64(from), fnv64([]byte(req.GetId()))) % 100; {
 			case x < 6:
 				a.count("adv_withheld_signature_from_honest_broadcaster", 1)
@@ -229,8 +239,12 @@ func (a *adversary) registerHandlers(w *world, host *fakenet.Host) {
 
 				return &pb.BCastSigResponse{Id: req.GetId(), Signature: junk}, true, nil
 			}
+			sig := a.signVia(w, from, req.GetId(), req.GetMessage())
+			if sig == nil {
+				return nil, false, nil
+			}
 
-			return &pb.BCastSigResponse{Id: req.GetId(), Signature: a.sign(h, from)}, true, nil
+			return &pb.BCastSigResponse{Id: req.GetId(), Signature: sig}, true, nil
 		})
 	p2p.RegisterHandler("c13adv", host, protoMsg,
 		func() proto.Message { return new(pb.BCastMessage) },
@@ -240,18 +254,11 @@ func (a *adversary) registerHandlers(w *world, host *fakenet.Host) {
 			if !ok || !known || len(msg.GetSignatures()) != a.mon.n {
 				return nil, false, nil
 			}
-			h := a.wireHash(w, msg.GetId(), from, msg.GetMessage())
-			tag := "?"
-			if inner, err := msg.GetMessage().UnmarshalNew(); err == nil {
-				a.mon.mu.Lock()
-				if p := a.mon.payloads[msgKey(inner)]; p != nil {
-					tag = p.Tag
-				}
-				a.mon.mu.Unlock()
-			}
+			ak := keyOfAny(msg.GetMessage())
 			for i, s := range msg.GetSignatures() {
-				a.learn(w.idx, i, h, s)
+				a.learn(poolKey{w.idx, i, from, msg.GetId(), ak}, s)
 			}
+			tag := a.tagOf(msg.GetMessage())
 			a.mu.Lock()
 			a.full = append(a.full, fullMsg{world: w.idx, sender: from, id: msg.GetId(), any: msg.GetMessage(), sigs: msg.GetSignatures(), tag: tag})
 			a.mu.Unlock()
@@ -289,10 +296,11 @@ func (a *adversary) subset(xs []int, nonEmpty bool) []int {
 	return out
 }
 
-// sigReq asks member `to` for a signature as the faulty member itself.
+// sigReq asks member `to` for a signature as the faulty member itself. Safe for concurrent use.
+// A 65-byte answer means the member signed the payload the request carried — that is what the
+// monitor records; no hash is computed here.
 func (a *adversary) sigReq(w *world, to int, id string, any *anypb.Any, tag, label string) bool {
 	mon := a.mon
-	h := a.wireHash(w, id, a.me, any)
 	raw, ok := w.net.Inject(mon.members[a.me].id, mon.members[to].id, protoSig, &pb.BCastSigRequest{Id: id, Message: any})
 	if !ok {
 		a.noHandler.Store(true)
@@ -302,32 +310,23 @@ func (a *adversary) sigReq(w *world, to int, id string, any *anypb.Any, tag, lab
 	if len(raw) > 0 {
 		resp := new(pb.BCastSigResponse)
 		if err := fakenet.Unframe(raw, resp); err == nil && len(resp.GetSignature()) > 0 {
-			sig := resp.GetSignature()
-			if !mon.verify(to, h, sig) && a.detectShape(w, to, id, any, sig) {
-				h = a.wireHash(w, id, a.me, any) // the members sign another hash shape than the specified one
-			}
-			if mon.verify(to, h, sig) {
+			res = "odd-response"
+			if sig := resp.GetSignature(); len(sig) == 65 && any != nil {
 				res = "signed"
-				if a.conformant() {
-					mon.recordSig(to, a.me, h)
-				} else {
-					res = "signed-unspecified-hash-shape"
-				}
-				a.learn(w.idx, to, h, sig)
-				mon.recordSignedPayload(w, to, a.me, id, any, tag)
+				mon.recordAnswer(w, to, a.me, id, any)
+				ak := keyOfAny(any)
+				a.learn(poolKey{w.idx, to, a.me, id, ak}, sig)
 				k := fmt.Sprintf("%d|%d|%s", w.idx, to, id)
 				a.mu.Lock()
 				if a.signedFor[k] == nil {
-					a.signedFor[k] = map[hash32]bool{}
+					a.signedFor[k] = map[anyKey]bool{}
 				}
-				a.signedFor[k][h] = true
+				a.signedFor[k][ak] = true
 				a.used[fmt.Sprintf("%d|%s", w.idx, id)] = true
 				if len(a.signedFor[k]) == 2 {
-					a.counts["member_signed_two_hashes_for_one_sender_and_id"]++
+					a.counts["member_signed_two_wire_payloads_for_one_sender_and_id"]++
 				}
 				a.mu.Unlock()
-			} else {
-				res = "signature-over-unknown-hash"
 			}
 		}
 	}
@@ -336,7 +335,7 @@ func (a *adversary) sigReq(w *world, to int, id string, any *anypb.Any, tag, lab
 	a.mu.Unlock()
 	a.addTrace(step{Op: "sig", World: w.idx, To: to, ID: id, Pay: tag, Label: label, Result: res})
 
-	return res != "refused" && res != "signature-over-unknown-hash"
+	return res == "signed"
 }
 
 // sendMsg injects a /msg as the faulty member; the callback (if any) runs synchronously inside.
@@ -344,7 +343,7 @@ func (a *adversary) sendMsg(w *world, to int, m fullMsg, label string) bool {
 	mon := a.mon
 	mon.mu.Lock()
 	mon.curLabel = label
-	mon.curHash = mon.specHash(w, m.id, a.me, m.any)
+	mon.curAny = keyOfAny(m.any)
 	mon.mu.Unlock()
 	before := mon.advDelivered(w, to)
 	_, ok := w.net.Inject(mon.members[a.me].id, mon.members[to].id, protoMsg, &pb.BCastMessage{Id: m.id, Message: m.any, Signatures: m.sigs})
@@ -384,6 +383,16 @@ func (a *adversary) newPayload(kind string) *payload {
 	return p
 }
 
+// registerCrafted gives a hand-made wire payload a witness tag (by the message it decodes to).
+func (a *adversary) registerCrafted(tag string, any *anypb.Any) {
+	dk := decodedKey(any)
+	a.mon.mu.Lock()
+	if a.mon.payloads[dk] == nil {
+		a.mon.payloads[dk] = &payload{Tag: tag, kind: "crafted", key: dk, encs: []*anypb.Any{any}}
+	}
+	a.mon.mu.Unlock()
+}
+
 func (a *adversary) payloadFor(id string) (*payload, *anypb.Any) {
 	kind := kindOfID(id)
 	switch x := a.rng.Intn(100); {
@@ -405,7 +414,10 @@ func (a *adversary) payloadFor(id string) (*payload, *anypb.Any) {
 	return p, p.encs[enc]
 }
 
-var fillers = []string{"random", "empty", "short64", "adv-over-hash", "same-member-other-hash", "other-member-same-hash", "omit-slot", "omit-slot"}
+var fillers = []string{
+	"random", "empty", "short64", "adv-over-payload", "same-member-other-payload", "other-member-same-payload",
+	"same-payload-other-requester", "omit-slot", "omit-slot",
+}
 
 func (a *adversary) randomSig() []byte {
 	b := make([]byte, 65)
@@ -415,44 +427,57 @@ func (a *adversary) randomSig() []byte {
 	return b
 }
 
-// fill produces something for a slot whose member did not sign h (as far as the faulty member knows).
-func (a *adversary) fill(filler string, slot int, h hash32) []byte {
+// fill produces something for a slot whose member did not sign (id, any) for the faulty member in
+// session w (as far as the faulty member knows).
+func (a *adversary) fill(filler string, w *world, id string, any *anypb.Any, slot int) []byte {
+	want := poolKey{w.idx, slot, a.me, id, keyOfAny(any)}
 	switch filler {
 	case "empty":
 		return nil
 	case "short64":
 		return a.randomSig()[:64]
-	case "adv-over-hash":
-		return a.sign(h, a.me)
-	case "same-member-other-hash":
+	case "adv-over-payload":
+		if s := a.signVia(w, a.me, id, any); s != nil {
+			return s
+		}
+	case "same-member-other-payload":
 		if slot == a.me {
-			var other hash32
-			a.rng.Read(other[:])
-			return a.sign(other, a.me)
+			if s := a.signVia(w, a.me, id, a.newPayload(kindOfID(id)).encs[0]); s != nil {
+				return s
+			}
+
+			break
 		}
 		a.mu.Lock()
 		cands := a.byMember[slot]
 		var pick []byte
-		if len(cands) > 0 {
-			for try := 0; try < 4 && pick == nil; try++ {
-				if c := cands[a.rng.Intn(len(cands))]; c.h != h {
-					pick = c.sig
-				}
+		for try := 0; try < 4 && pick == nil && len(cands) > 0; try++ {
+			if c := cands[a.rng.Intn(len(cands))]; c.k != want {
+				pick = c.sig
 			}
 		}
 		a.mu.Unlock()
 		if pick != nil {
 			return pick
 		}
-	case "other-member-same-hash":
-		a.mu.Lock()
-		var pick []byte
+	case "other-member-same-payload":
 		for _, j := range a.rng.Perm(a.mon.n) {
 			if j == slot {
 				continue
 			}
-			if s := a.sigs[signedKey{j, h}]; s != nil {
-				pick = s
+			k := want
+			k.member = j
+			if s := a.known(k); s != nil {
+				return s
+			}
+		}
+	case "same-payload-other-requester":
+		// the slot's member did sign exactly this payload under this id — but for another broadcaster
+		a.mu.Lock()
+		var pick []byte
+		for _, c := range a.byMember[slot] {
+			if c.k.world == want.world && c.k.id == want.id && c.k.ak == want.ak && c.k.requester != a.me {
+				pick = c.sig
 				break
 			}
 		}
@@ -465,12 +490,12 @@ func (a *adversary) fill(filler string, slot int, h hash32) []byte {
 	return a.randomSig()
 }
 
-// buildSigs assembles the best signature list the faulty member can make for (id, any) in w.
-// altSession, if non-nil, lets missing slots be filled with the same member's signature from
-// another ceremony session.
+// buildSigs assembles the best signature list the faulty member can make for its own broadcast of
+// (id, any) in w. alt, if non-nil, lets missing slots be filled with the same member's signature
+// from another ceremony session.
 func (a *adversary) buildSigs(w *world, id string, any *anypb.Any, filler string, alt *world) ([][]byte, bool) {
-	h := a.wireHash(w, id, a.me, any)
 	n := a.mon.n
+	ak := keyOfAny(any)
 	sigs := make([][]byte, 0, n)
 	complete := true
 	withholdOwn := a.rng.Intn(14) == 0
@@ -478,29 +503,25 @@ func (a *adversary) buildSigs(w *world, id string, any *anypb.Any, filler string
 		var s []byte
 		if i == a.me {
 			if !withholdOwn {
-				s = a.sign(h, a.me)
+				s = a.signVia(w, a.me, id, any)
 			}
 		} else {
-			a.mu.Lock()
-			s = a.sigs[signedKey{i, h}]
-			a.mu.Unlock()
+			s = a.known(poolKey{w.idx, i, a.me, id, ak})
 		}
 		if s == nil {
 			complete = false
 			if alt != nil {
-				h2 := a.wireHash(alt, id, a.me, any)
-				a.mu.Lock()
-				s = a.sigs[signedKey{i, h2}]
-				a.mu.Unlock()
-				if s == nil && i == a.me {
-					s = a.sign(h2, a.me)
+				if i == a.me {
+					s = a.signVia(alt, a.me, id, any)
+				} else {
+					s = a.known(poolKey{alt.idx, i, a.me, id, ak})
 				}
 			}
 			if s == nil && filler == "omit-slot" {
 				continue // the list simply gets shorter
 			}
 			if s == nil {
-				s = a.fill(filler, i, h)
+				s = a.fill(filler, w, id, any, i)
 			}
 		}
 		sigs = append(sigs, s)
@@ -553,23 +574,25 @@ func (a *adversary) step() {
 	w := a.mon.worlds[a.rng.Intn(len(a.mon.worlds))]
 	x := a.rng.Intn(100)
 	switch {
-	case x < 11:
+	case x < 9:
 		a.playOwnBroadcast(w, a.pickID(w, false), "own-broadcast")
-	case x < 22:
+	case x < 19:
 		a.playEquivocate(w, a.pickID(w, false))
-	case x < 38:
+	case x < 33:
 		a.playConcurrentEquivocate(w, a.pickID(w, true))
-	case x < 51:
+	case x < 47:
+		a.playCollision(w)
+	case x < 59:
 		a.playRelay(w)
-	case x < 61:
+	case x < 68:
 		a.playRelayCosigned(w)
-	case x < 71:
+	case x < 77:
 		a.playCrossSession(w)
-	case x < 86:
+	case x < 90:
 		a.playManip(w)
-	case x < 91:
+	case x < 94:
 		a.playUnregistered(w)
-	case x < 96:
+	case x < 97:
 		a.playMalformed(w)
 	default:
 		a.playReplay(w)
@@ -747,6 +770,98 @@ func (a *adversary) playConcurrentEquivocate(w *world, id string) {
 	a.mu.Unlock()
 }
 
+var collisionKinds = []string{
+	"url-value-boundary", "url-value-boundary", "id-url-boundary", "type-swap", "trailing-unknown-field", "leading-unknown-field",
+	"url-host-prefix", "reordered-fields", "value-only-other-url-path",
+}
+
+// playCollision: two different wire payloads X and Y that would hash identically if the signed hash
+// were weakened in a plausible way (a field boundary not committed to, a field left out, bytes that
+// the protobuf decoder skips, the url host ignored). Every member is asked to sign X — an ordinary,
+// sequential, honest-looking broadcast — then X goes to some members and Y, with X's signature
+// list, to the others. With a sound hash every Y is rejected.
+func (a *adversary) playCollision(w *world) {
+	kind := collisionKinds[a.rng.Intn(len(collisionKinds))]
+	idX := a.pickID(w, true)
+	idY := idX
+	if kind == "id-url-boundary" {
+		pair := prefixPairs[a.rng.Intn(len(prefixPairs))]
+		for try := 0; try < 4 && !a.isFresh(w, pair[0]) && !a.isFresh(w, pair[1]); try++ {
+			pair = prefixPairs[a.rng.Intn(len(prefixPairs))]
+		}
+		idX, idY = pair[1], pair[0] // long id signed, short id delivered (swapped below at random)
+	}
+	k := kindOfID(idX)
+	name := typeName(k)
+	a.pcount++
+	secs, nanos := int64(3_000_000+a.pcount), int32(1+a.rng.Intn(1000))
+	u := "type.googleapis.com/" + name
+	first, rest := secondsField(secs), nanosField(nanos)
+	v := append(append([]byte(nil), first...), rest...)
+	unknown := []byte{0x78, 0x07} // field 15, varint 7: skipped by the decoder, kept as unknown field
+	x := &anypb.Any{TypeUrl: u, Value: v}
+	var y *anypb.Any
+	switch kind {
+	case "url-value-boundary":
+		// X.value starts with an unknown length-delimited field (tag 0x7a) that swallows "/<name>"
+		// and the seconds field, so X.type_url||X.value == Y.type_url||Y.value.
+		inner := append([]byte("/"+name), first...)
+		g := []byte{0x7a, byte(len(inner))}
+		x = &anypb.Any{TypeUrl: u, Value: append(append(append([]byte(nil), g...), inner...), rest...)}
+		y = &anypb.Any{TypeUrl: u + string(g) + "/" + name, Value: v}
+	case "id-url-boundary":
+		// idX||X.type_url == idY||Y.type_url
+		y = &anypb.Any{TypeUrl: idX[len(idY):] + u, Value: v}
+	case "type-swap":
+		other := "dur"
+		if k == "dur" {
+			other = "ts"
+		}
+		y = &anypb.Any{TypeUrl: "type.googleapis.com/" + typeName(other), Value: v}
+	case "trailing-unknown-field":
+		y = &anypb.Any{TypeUrl: u, Value: append(append([]byte(nil), v...), unknown...)}
+	case "leading-unknown-field":
+		y = &anypb.Any{TypeUrl: u, Value: append(append([]byte(nil), unknown...), v...)}
+	case "url-host-prefix":
+		y = &anypb.Any{TypeUrl: "verif.example/" + name, Value: v}
+	case "reordered-fields":
+		y = &anypb.Any{TypeUrl: u, Value: append(append([]byte(nil), rest...), first...)}
+	default: // value-only-other-url-path: same value, the url has an extra path segment
+		y = &anypb.Any{TypeUrl: "type.googleapis.com/extra/" + name, Value: v}
+	}
+	if a.rng.Intn(2) == 0 {
+		x, y = y, x
+		idX, idY = idY, idX
+	}
+	tagX, tagY := fmt.Sprintf("X%d", a.pcount), fmt.Sprintf("Y%d", a.pcount)
+	a.registerCrafted(tagX, x)
+	a.registerCrafted(tagY, y)
+	label := "collision/" + kind
+	a.count("adv_collision_attempts", 1)
+	for _, to := range a.honest2(false) {
+		a.sigReq(w, to, idX, x, tagX, label)
+	}
+	sigs, complete := a.buildSigs(w, idX, x, "random", nil)
+	if !complete {
+		label += "-incomplete"
+	} else {
+		a.count("adv_collision_attempts_with_full_list", 1)
+		a.mu.Lock()
+		a.own = append(a.own, fullMsg{world: w.idx, sender: a.me, id: idX, any: x, sigs: sigs, tag: tagX})
+		a.mu.Unlock()
+	}
+	hs := a.honest2(false)
+	for i, to := range hs {
+		if i == 0 || (i > 1 && a.rng.Intn(3) == 0) {
+			a.sendMsg(w, to, fullMsg{world: w.idx, sender: a.me, id: idX, any: x, sigs: sigs, tag: tagX}, label+"/signed-payload")
+			if a.rng.Intn(3) != 0 {
+				continue
+			}
+		}
+		a.sendMsg(w, to, fullMsg{world: w.idx, sender: a.me, id: idY, any: y, sigs: sigs, tag: tagY}, label)
+	}
+}
+
 func (a *adversary) foreignIn(w *world) []fullMsg {
 	a.mu.Lock()
 	defer a.mu.Unlock()
@@ -884,8 +999,8 @@ func (a *adversary) playCrossSession(w *world) {
 
 var manips = []string{
 	"permute", "swap2", "truncate-last", "truncate-first", "truncate-random", "append-dup", "dup-slot", "recovery-id-plus-27",
-	"empty-list", "flip-bit", "slot:random", "slot:empty", "slot:short64", "slot:adv-over-hash", "slot:same-member-other-hash",
-	"slot:other-member-same-hash", "other-id", "other-payload", "other-encoding", "drop-receivers-slot", "receivers-slot:random",
+	"empty-list", "flip-bit", "slot:random", "slot:empty", "slot:short64", "slot:adv-over-payload", "slot:same-member-other-payload",
+	"slot:other-member-same-payload", "slot:same-payload-other-requester", "other-id", "other-payload", "other-encoding", "drop-receivers-slot", "receivers-slot:random",
 }
 
 // playManip: take a message with a complete, valid signature list (own or foreign) and damage
@@ -917,7 +1032,6 @@ func (a *adversary) playManip(w *world) {
 	foreign := bi >= nOwn
 	name := manips[a.rng.Intn(len(manips))]
 	n := a.mon.n
-	h := a.wireHash(w, b.id, a.me, b.any)
 	to := a.honest()[a.rng.Intn(n-1)]
 	m := b
 	m.sigs = append([][]byte(nil), b.sigs...)
@@ -972,12 +1086,9 @@ func (a *adversary) playManip(w *world) {
 		p, any := a.payloadFor(b.id)
 		m.any, m.tag = any, p.Tag
 	case "other-encoding":
-		var p *payload
-		if inner, err := b.any.UnmarshalNew(); err == nil {
-			a.mon.mu.Lock()
-			p = a.mon.payloads[msgKey(inner)]
-			a.mon.mu.Unlock()
-		}
+		a.mon.mu.Lock()
+		p := a.mon.payloads[decodedKey(b.any)]
+		a.mon.mu.Unlock()
 		if p == nil || len(p.encs) < 2 {
 			name = "slot:random"
 			m.sigs[slot] = a.randomSig()
@@ -992,7 +1103,7 @@ func (a *adversary) playManip(w *world) {
 			}
 		}
 	default: // slot:<filler>
-		m.sigs[slot] = a.fill(name[len("slot:"):], slot, h)
+		m.sigs[slot] = a.fill(name[len("slot:"):], w, b.id, b.any, slot)
 	}
 	label := "manip/" + name
 	if foreign {
@@ -1026,10 +1137,9 @@ func (a *adversary) playMalformed(w *world) {
 		a.sendMsg(w, to, fullMsg{id: id, tag: "nil", sigs: make([][]byte, n)}, "malformed/nil-message")
 	case 1: // every slot signed by the faulty member
 		p, any := a.payloadFor(id)
-		h := a.wireHash(w, id, a.me, any)
 		sigs := make([][]byte, n)
 		for i := range sigs {
-			sigs[i] = a.sign(h, a.me)
+			sigs[i] = a.signVia(w, a.me, id, any)
 		}
 		a.sendMsg(w, to, fullMsg{id: id, any: any, tag: p.Tag, sigs: sigs}, "malformed/all-slots-signed-by-faulty-member")
 	case 2: // list twice as long
@@ -1044,12 +1154,12 @@ func (a *adversary) playMalformed(w *world) {
 		for _, t := range a.honest() {
 			a.sigReq(w, t, id, p.encs[0], p.Tag, "malformed/undecodable-type")
 		}
-		sigs, _ := a.buildSigs(w, id, p.encs[0], "adv-over-hash", nil)
+		sigs, _ := a.buildSigs(w, id, p.encs[0], "adv-over-payload", nil)
 		a.sendMsg(w, to, fullMsg{id: id, any: p.encs[0], tag: p.Tag, sigs: sigs}, "malformed/undecodable-type")
 	default: // empty Any
 		empty := &anypb.Any{}
 		a.sigReq(w, to, id, empty, "empty-any", "malformed/empty-any")
-		sigs, _ := a.buildSigs(w, id, empty, "adv-over-hash", nil)
+		sigs, _ := a.buildSigs(w, id, empty, "adv-over-payload", nil)
 		a.sendMsg(w, to, fullMsg{id: id, any: empty, tag: "empty-any", sigs: sigs}, "malformed/empty-any")
 	}
 }
